@@ -125,4 +125,18 @@ def scaledGrad (factor : α) (g : List α) : List α := g.map (· * factor)
 
 end ard
 
+/-! ### WeightedSumKernel: derivative with respect to the log-weights -/
+section wsumgrad
+variable {α : Type} [Add α] [Sub α] [Mul α] [Div α] [Neg α] [OfNat α 0] [OfNat α 1]
+variable (exp sqrt : α → α)
+
+/-- `WeightedSumKernel::weightedParameterDerivative`, the weight part (sub-kernels not adaptive):
+`gradient(i-1) = weight_i * (summedK_i * weightsum - numeratorSum) / sqr(weightsum)` for `i ≥ 1`, with
+`summedK_i = sum(coefficients * K_i)` and `numeratorSum = sum(coefficients * Σ_i weight_i K_i)` -/
+def wsumWeightGrad (ws : List α) (W : α) (ks : List (Kern α)) (C X1 X2 : Mat α) : List α :=
+  let Ss := ks.map fun k => weightedSum (k.eval exp sqrt) C X1 X2
+  let N := weightedSum (fun x z => wfold ws (evalList exp sqrt ks x z) 0) C X1 X2
+  List.zipWith (fun w S => w * (S * W - N) / (W * W)) (ws.drop 1) (Ss.drop 1)
+end wsumgrad
+
 end SharkVerif.Kernels
